@@ -24,6 +24,7 @@ func init() {
 			{"C16.pool-reentrancy", "no nested pool token acquisition", 4, func(c *Ctx) { c.poolReentrancy("SFTPStore", "pool"); c.poolReentrancy("RemoteSSH", "pool") }},
 			{"C16.name-roundtrip", "object-store idFromName undoes nameFromID (whole-string prefix and extension removal)", 3, c16NameRoundtrip},
 			{"C16.ctor-verifies", "Verify relies on GetChunk: the verifying constructors reject unreadable data and the zero id", 2, c03CtorVerifies},
+			{"C16.walk-complete", "Verify and Prune visit every file of the local store (no SkipDir)", 2, c16WalkComplete},
 			{"C16.verify", "verify removes exactly the invalid chunks, only with repair", 3, c16Verify},
 		},
 	})
@@ -505,4 +506,36 @@ func c16NameRoundtrip(c *Ctx) {
 		}
 	}
 	c.ok("name-roundtrip", 0, "%d idFromName implementation(s), %d cut-set calls", n, cut)
+}
+
+// c16WalkComplete: Verify and Prune of the local store visit every file below the store root:
+// their walk callbacks never return filepath.SkipDir / SkipAll (a skipped directory hides all
+// chunks below it - for a store rooted at "." or in a dot-directory that is the whole store).
+func c16WalkComplete(c *Ctx) {
+	n := 0
+	for _, key := range []string{"LocalStore.Verify", "LocalStore.Prune"} {
+		fn := c.mustFn(key)
+		if fn == nil {
+			continue
+		}
+		walks := 0
+		for _, f := range withClosures(fn) {
+			walks += len(calls(f, named("path/filepath.Walk", "path/filepath.WalkDir")))
+			skips := 0
+			instrs(f, func(_ *ssa.BasicBlock, _ int, ins ssa.Instruction) {
+				for _, op := range ins.Operands(nil) {
+					if g, ok := (*op).(*ssa.Global); ok && (g.Name() == "SkipDir" || g.Name() == "SkipAll") {
+						skips++
+						c.bad(fnKey(f)+":"+g.Name(), ins.Pos(), "the walk callback can return %s: whole directories of the store are left unvisited, their chunks are neither verified nor pruned", g.Name())
+					}
+				}
+			})
+			_ = skips
+		}
+		n += walks
+		c.verdict(walks == 1, key+":walk", fn.Pos(), "one filepath.Walk over the store root; the callback never skips a directory", fmt.Sprintf("%d walks found", walks))
+	}
+	if n < 2 {
+		c.bad("walk-complete", token.NoPos, "expected the walks of Verify and Prune")
+	}
 }
